@@ -7,7 +7,7 @@ LEVEL_TEXT = ("Each entry point of the catalogue is called twice on shared argum
               "call must succeed, and results must be identical (same seeds for the simulators). The monitor additionally snapshots the graph before and after the complete exhaustive exploration of every family spec.")
 LEVEL_NOTE = "a defaultdict passed as IC may be auto-vivified by reads (not a visible change of the mapping); all argument values of the catalogue, not all possible values"
 RULE = "one evaluation = one entry point x argument set called twice; non-trivial = all"
-BOUNDS = {"quick": "37 simulator calls, 28 wrappers x {sets,rho} x return modes, 42 direct calls (incl. node-level models with explicit nodelist/Y0/X0/XY0/XX0 arrays) on P3,K3,P4,S4,C4,paw x 3 initial sets; monitor on the quick family specs of C01,C02,C03,C11,C12,C13,C15",
+BOUNDS = {"quick": "37 simulator calls, 28 wrappers x {sets,rho} x return modes, 42 direct calls (incl. node-level models with explicit nodelist/Y0/X0/XY0/XX0 arrays) on P3,K3,P4,S4,C4,paw + two graphs with an isolated node x 3 initial sets; every simulator/wrapper call repeated on the same graph object after an in-place edge addition, its removal, a rewiring and its undoing (compared with an independent deep copy); monitor on the quick family specs of C01,C02,C03,C11,C12,C13,C15",
           "thorough": "all graphs with an edge on <=4 nodes + bull; monitor on the thorough family specs"}
 ASSUMPTIONS = []
 PROPS = ("C19",)
